@@ -10,6 +10,7 @@ package buffers
 import (
 	"bytes"
 	"fmt"
+	"math"
 	"strings"
 	"testing"
 	"unsafe"
@@ -71,7 +72,7 @@ func (m *bipModel) consume(k int) {
 
 func TestC10_BipModel(t *testing.T) {
 	rec := evid.For("C10")
-	rec.SetRule("rapid state machine over BipBuffer sizes 1..64 (+ occasional up to 4096): Claim(n)/write tag bytes/Commit(m)/Consume(k)/Head/Reset with non-negative amounts, compared after every step with a FIFO-of-chunks model carrying physical offsets; non-trivial = the history had a wrapped region AND a claim outstanding across a Consume; distinct = hash of the operation trace")
+	rec.SetRule("rapid state machine over BipBuffer sizes 1..64 (+ occasional up to 4096): Claim(n)/write tag bytes/Commit(m)/Consume(k)/Head/Reset with non-negative amounts (Consume also with amounts up to MaxInt), compared after every step with a FIFO-of-chunks model carrying physical offsets; non-trivial = the history had a wrapped region AND a claim outstanding across a Consume; distinct = hash of the operation trace")
 	vt.CheckSteps(t, 4000, 80, propC10)
 }
 
@@ -230,7 +231,9 @@ func propC10(t *rapid.T) {
 			"consume": func(t *rapid.T) {
 				h := len(buf.Head())
 				part := rapid.IntRange(0, h)
-				k := rapid.OneOf(part, part, part, part, part, rapid.Just(h), rapid.Just(h), rapid.IntRange(h, h+3)).Draw(t, "k")
+				k := rapid.OneOf(part, part, part, part, part, rapid.Just(h), rapid.Just(h), rapid.IntRange(h, h+3),
+					// "drop everything": every non-negative size is in the quantifier, also the ones next to MaxInt
+					rapid.SampledFrom([]int{math.MaxInt, math.MaxInt - 1, math.MaxInt - 2, math.MaxInt - 3, math.MaxInt - 7, 1 << 62, 1 << 31})).Draw(t, "k")
 				if len(claim) > 0 && k > 0 {
 					claimAcrossConsume = true
 				}
